@@ -86,6 +86,16 @@ def equivalent(a, b):
         ia, ib = a2ldoc.int_value(a[1]), a2ldoc.int_value(b[1])
         if ia is not None and ib is not None:
             return ia[0] == ib[0]                            # number notation may differ, the value may not
+        if (ia is None) != (ib is None):
+            # an integer literal against float notation: the same number exactly (an integer beyond 2^53 that comes back
+            # rounded is another value)
+            from decimal import Decimal, InvalidOperation
+            from fractions import Fraction
+            try:
+                other = b[1] if ia is not None else a[1]
+                return Fraction(Decimal(other)) == (ia or ib)[0]
+            except (InvalidOperation, ValueError):
+                return False
         try:
             fa = float(int(a[1], 16)) if a[1][:2] in ("0x", "0X") else float(a[1])
             fb = float(int(b[1], 16)) if b[1][:2] in ("0x", "0X") else float(b[1])
